@@ -206,7 +206,7 @@ fn main() {
         // ---- hand-written FDT without FEC-OTI attributes: the writer is created inside push()
         let fecs: [u8; 4] = [0, 5, 129, 6];
         let lens: [usize; 4] = [0, 1, 16, 40];
-        let n2 = fecs.len() * lens.len() * n_scripts * 6 * 4;
+        let n2 = fecs.len() * lens.len() * n_scripts * 7 * 4;
         gens.push(Gen::new("fdt_without_oti", n2, move |ctx, i| {
             let fec = fecs[i % fecs.len()];
             let len = lens[(i / fecs.len()) % lens.len()];
@@ -214,9 +214,9 @@ fn main() {
             // 0 fdt first, 1 object first, 2 fdt in the middle; 3-5: single-symbol blocks and EXT_FTI on SOME packets only
             // (the others wait in the cache until a packet with EXT_FTI opens the writer inside push()):
             // 3 reverse order, FTI on the last packet pushed; 4 every packet first without then with FTI; 5 in order, FTI on the last
-            let variant = (i / (fecs.len() * lens.len() * n_scripts)) % 6;
+            let variant = (i / (fecs.len() * lens.len() * n_scripts)) % 7;
             // announced Content-Length vs real length (null encoding): equal, larger, smaller
-            let cl_mode = (i / (fecs.len() * lens.len() * n_scripts * 6)) % 4;
+            let cl_mode = (i / (fecs.len() * lens.len() * n_scripts * 7)) % 4;
             let cl_delta: i64 = [0i64, 5, -1, 0][cl_mode];
             // fourth mode: the File element carries neither Content-Length nor Content-MD5 (both are optional): the
             // content is whatever the Transfer-Length bytes decode to
@@ -266,8 +266,12 @@ fn main() {
                         sym.resize(e, 0);
                     }
                     l.b = sbn + 1 == part.n && esi + 1 == k;
-                    objp.push(wire::encode(&l, &[wire::ext_fti(&fti)], &wire::payload_id(fec, sbn as u32, esi as u32, k as u16, 8), &sym));
-                    objp_nofti.push(wire::encode(&l, &[], &wire::payload_id(fec, sbn as u32, esi as u32, k as u16, 8), &sym));
+                    // variant 6 (hostile, matters for FEC 129 whose payload id announces the block length): every packet
+                    // announces a source block of 0 symbols - the packets replayed from the cache fail, and so does the
+                    // packet that carried the OTI
+                    let sbl = if variant == 6 { 0u16 } else { k as u16 };
+                    objp.push(wire::encode(&l, &[wire::ext_fti(&fti)], &wire::payload_id(fec, sbn as u32, esi as u32, sbl, 8), &sym));
+                    objp_nofti.push(wire::encode(&l, &[], &wire::payload_id(fec, sbn as u32, esi as u32, sbl, 8), &sym));
                 }
             }
             let mut seq: Vec<Vec<u8>> = vec![];
